@@ -328,6 +328,42 @@ def run_scenario(item):
                 r2 = probe_query(z, 'SELECT 1') if r1.end == 'Z' else r1
                 if r2.end != 'Z' or any('could not get connection' in (e.get('M') or '') for e in r1.errors + r2.errors):
                     note('capacity_lost', probe=i, of=pool_size, got=(r1.brief() + ' / ' + r2.brief())[:160])
+            if item.get('restart_epilogue') and all(z.sock is not None for z in probes):
+                # PoolCore.ServerRestart: with nobody holding a connection the server goes away, refuses start-ups with a
+                # FATAL error for a moment, and comes back: the whole capacity must be there again
+                for z in probes:
+                    z.query('COMMIT')
+                be.fault('startup_error')
+                time.sleep(0.05)
+                r0 = probes[0].query('SELECT 1', timeout=3.0) if probes else None
+                be.fault('up')
+                time.sleep(0.2)
+                # connections pooled before the restart are dead and are found out one failed statement at a time: that is
+                # not lost capacity; use them up first
+                for _ in range(pool_size + 1):
+                    try:
+                        z0 = Client(w.port, name='W', timeout=4.0)
+                        z0.query('SELECT 1', timeout=3.0)
+                        z0.close()
+                    except OSError:
+                        pass
+                again = []
+                for i2 in range(pool_size):
+                    try:
+                        z2 = Client(w.port, name='R%d' % i2, timeout=4.0)
+                    except OSError:
+                        note('capacity_lost', probe=i2, why='connect failed after server restart')
+                        continue
+                    again.append(z2)
+                    w.log.add(ev='client_connected', client=z2.name)
+                    r1 = z2.query('BEGIN')
+                    r2 = z2.query('SELECT 1') if r1.end == 'Z' else r1
+                    if r2.end != 'Z' or r1.errors or r2.errors:
+                        note('capacity_lost', probe=i2, of=pool_size, after='server_restart', got=(r1.brief() + ' / ' + r2.brief())[:160])
+                for z2 in again:
+                    z2.query('COMMIT')
+                    w.log.add(ev='closing', client=z2.name)
+                    z2.close()
             for z in probes:
                 rep = z.query('COMMIT')
                 for e in rep.echoes():
